@@ -26,6 +26,14 @@ what the object has cached.
 {-2..2}^{1..3} x clip in {default, none, start, end, both} for put_array_in_2d_array; every
 non-negative shift vector over {0..2}^{1..3} x {add, sub} for join_values_w_shifts and
 join_sig_w_time_shift (dyadic dt, exact multiples).
+
+Round 3 (general lessons): the shift helpers and joins also get the values of short words as int64 / list / tuple / int16 /
+int8 / uint8 / uint16 (steps so large that sums and differences leave the type's range) / float32 (multiples of float32(0.1))
+/ scaled by 2^-30 and 2^20, also through a Signal holding such an array; expected values are the exact sums of the samples
+actually passed.  Values, shifts and time-shift arrays are one object per sequence of calls (snapshot after every call) and
+every returned array is overwritten in place after a private copy was taken.  Energy functions: batches also on records held
+as int64 / int16 / uint8 (vs the float64 twin), alpha^2 scaling also for alpha = 2^-30 and 2^20, a third object history
+(the object held another, longer record before).
 """
 import itertools
 from fractions import Fraction
@@ -53,8 +61,27 @@ SHIFT_VALS = (-2, -1, 0, 1, 2)
 CLIPS = ('default', 'none', 'start', 'end', 'both')
 JOIN_DTS = (0.5, 0.25)
 # object histories: public AccSignal operations performed on the object BEFORE it is handed to the surface functions
-HISTORIES = ('velocity-read', 'rect-series')
+HISTORIES = ('velocity-read', 'rect-series', 'other-record')
 FNS = (('energy', 'calc_surface_energy'), ('cum', 'calc_cum_abs_surface_energy'), ('motions', 'get_time_shift_motions'))
+# ---- containers / dtypes / scalings of the values handed to the array-shifting helpers (words of length <= SHIFT_VARIANT_MAX_LEN;
+#      actual samples w*mult+offset, exactly representable in the type; narrow / unsigned types carry steps so large that
+#      original + shifted copy (or original - shifted copy) leaves the type's range; the float32 samples are multiples of
+#      float32(0.1), whose sums are not float32 numbers; 2^-30 ~ 1e-9 and 2^20 ~ 1e6 are the scale-free sub-families).
+#      The property fixes the VALUES of the result ("adds or subtracts the shifted copies from the zero-padded original"),
+#      so they are compared with the exact sums whatever the input type.
+F32_TENTH = Fraction(float(np.float32(0.1)))
+SHIFT_VARIANTS = (
+    ('i64', 1, 0, np.int64), ('list', 1, 0, list), ('tuple', 1, 0, tuple),
+    ('i16 (w*12500)', 12500, 0, np.int16), ('i8 (w*60)', 60, 0, np.int8),
+    ('u8 (w*50+50)', 50, 50, np.uint8), ('u16 (w*20000+20000)', 20000, 20000, np.uint16),
+    ('f32 (w*float32(0.1))', F32_TENTH, 0, np.float32),
+    ('f64 (w*2^-30)', Fraction(1, 2 ** 30), 0, float), ('f64 (w*2^20)', 2 ** 20, 0, float),
+)
+SHIFT_VARIANT_MAX_LEN = 3
+# ---- records of the energy functions in other integer types (same samples; float32 records are answered to ~1e-8 only
+#      on the unchanged tree and are not examined) and at other scales (alpha^2 scaling of the cumulative series)
+ENERGY_DTYPES = (('i64', 1, 0, np.int64), ('i16 (w*10000)', 10000, 0, np.int16), ('u8 (w*80+80)', 80, 80, np.uint8))
+EXTRA_ALPHAS = (('2^-30', Fraction(1, 2 ** 30)), ('2^20', Fraction(2 ** 20)))        # full series only
 
 
 def build(tier, seed):
@@ -78,20 +105,32 @@ def build(tier, seed):
                 'three functions (full series) on AccSignal objects with history in %s; '
                 'shift helpers: all non-zero words of length 2..%d x all shift vectors over {-2..2}^{1..3} x clip in %s; '
                 'joins: all shift vectors over {0..2}^{1..3} x {add,sub} x {values, signal with dt in %s}; '
+                'added: every result array is overwritten in place after a private copy was taken; batches also on records held as '
+                '%s (vs the float64 twin); alpha also in %s on the full series; shift helpers and joins on words of length <= %d also '
+                'with the values as %s (put: shift vectors of length 1-2; joins: all), values / shifts / time-shift arrays being '
+                'one object per sequence of calls (snapshot after every call); '
                 'non-trivial = word not identically zero (every enumerated word)'
-                % (L, list(TTS), list(STTS), list(ALPHAS), list(HISTORIES), Ls, list(CLIPS), list(JOIN_DTS)),
+                % (L, list(TTS), list(STTS), list(ALPHAS), list(HISTORIES), Ls, list(CLIPS), list(JOIN_DTS),
+                   [d[0] for d in ENERGY_DTYPES], [a[0] for a in EXTRA_ALPHAS], SHIFT_VARIANT_MAX_LEN,
+                   [v[0] for v in SHIFT_VARIANTS]),
         'bounds': {'alphabet': SIGMA, 'max_len_energy': L, 'max_len_shift': Ls, 'dt': DT, 'travel_times': TTS,
                    'batches': BATCHES, 'reductions': {'unit': [1, 1], 'scalar': [0.8, 0.5],
                                                       'array_up': ARR_UP, 'array_down': ARR_DOWN},
                    'stt': STTS, 'trim_start': OPTS, 'alphas': ALPHAS, 'object_histories': HISTORIES,
                    'argument_arrays': 'one object per travel-time set, reused by all calls', 'shift_values': SHIFT_VALS,
-                   'shift_vector_len': [1, 3], 'clip': CLIPS, 'tol': 1e-12},
+                   'shift_vector_len': [1, 3], 'clip': CLIPS, 'tol': 1e-12,
+                   'shift_value_variants': [v[0] for v in SHIFT_VARIANTS], 'shift_variant_max_len': SHIFT_VARIANT_MAX_LEN,
+                   'energy_record_dtypes': [d[0] for d in ENERGY_DTYPES], 'extra_alphas_full_series': [a[0] for a in EXTRA_ALPHAS]},
         'required_classes': ['nodal', 'anti-nodal', 'red-unit', 'red-scalar', 'red-array', 'tt-zero', 'tt-subsample',
                              'tt-fractional', 'tt-integer', 'single', 'batch', 'trim', 'start', 'stt>0',
                              'reference-compared', 'energy-has-negative-values', 'cum-increases', 'cum-identically-zero',
                              'row-vs-single', 'row-shorter-than-batch', 'alpha-scaling',
                              'argument-array-reused', 'cum-first-sample-nonzero-energy',
-                             'history-velocity-read', 'history-rect-series',
+                             'history-velocity-read', 'history-rect-series', 'history-other-record',
+                             'record-dtype-i64', 'record-dtype-i16', 'record-dtype-u8', 'alpha-tiny-or-huge',
+                             'shift-variant-i64', 'shift-variant-list', 'shift-variant-tuple', 'shift-variant-i16',
+                             'shift-variant-i8', 'shift-variant-u8', 'shift-variant-u16', 'shift-variant-f32',
+                             'shift-variant-f64',
                              'clip-default', 'clip-none', 'clip-start', 'clip-end', 'clip-both',
                              'shift-negative', 'shift-positive', 'shift-mixed-sign', 'join-add', 'join-sub',
                              'join-signal'],
@@ -105,6 +144,15 @@ def build(tier, seed):
                         'options| (change from rest) or 0 (no change inside the series yet) are both accepted',
                         'a query leaves its argument arrays unchanged (bit-for-bit); object histories: velocity property read, '
                         'generate_displacement_and_velocity_series(trap=False) called - both leave the record itself unchanged',
+                        'history other-record: the object held a longer record on which the three functions were called, lazy '
+                        'properties read and auxiliary statistics generated, then reset_values(this record)',
+                        'value variants of the shift helpers: samples w*mult+offset exactly representable in the stated type; the '
+                        'expected values are the exact sums / differences of the samples actually passed (the result values are '
+                        'fixed by the property whatever the input type); float32 RECORDS of the energy functions are not examined '
+                        '(answered to ~1e-8 on the unchanged tree); time shifts of join_sig_w_time_shift only as ndarray (a python '
+                        'list is not accepted by the unchanged tree)',
+                        'start=True: the statement does not define by how many samples a row is moved; stt and travel times with '
+                        'different fractional parts of a step are in the menus, but only the stated relations are checked for them',
                         'join helpers: non-negative integer shifts; signal variant with time shifts that are exact '
                         'multiples of a dyadic dt'],
     }
@@ -225,6 +273,21 @@ def run_energy(case):
             sg.velocity                                                   # fills the object's velocity cache
         elif hist == 'rect-series':
             sg.generate_displacement_and_velocity_series(trap=False)      # cache now holds the rectangle-rule series
+        elif hist == 'other-record':
+            # the object held ANOTHER, longer record: the three functions were called on it, its lazy properties read and its
+            # auxiliary statistics generated; then it was given this record (failures while building the history are ignored)
+            sg = eqsig.AccSignal(np.array(list(warr) + [2, -1, 1], dtype=float), dtf)
+            with np.errstate(all='ignore'):
+                for step in (lambda: surface.calc_surface_energy(sg, np.array([0.3, 0.5]), stt=0.5, trim=True, start=True),
+                             lambda: surface.calc_cum_abs_surface_energy(sg, 0.25, nodal=False),
+                             lambda: surface.get_time_shift_motions(sg, np.array([1.1, 0.0])),
+                             lambda: sg.velocity, lambda: sg.displacement, lambda: sg.pga, lambda: sg.fa_spectrum,
+                             lambda: sg.generate_cumulative_stats(), lambda: sg.generate_duration_stats()):
+                    try:
+                        step()
+                    except Exception:
+                        pass
+            sg.reset_values(np.array(warr, dtype=float))
         return sg
 
     def run(fn_attr, claim, sub, asig, args, trim, start, stt):
@@ -239,6 +302,15 @@ def run_energy(case):
                   if isinstance(x, np.ndarray)]
         res = r.call(claim, sub, fn, asig, args[0], nodal=nodal, up_red=args[1], down_red=args[2], stt=stt, trim=trim,
                      start=start)
+        if res[0] and isinstance(res[1], np.ndarray) and res[1].size:
+            # the caller owns what is returned: it is overwritten in place after a private copy was taken (a result that
+            # is a view of the record, of an argument or of something the function keeps shows later in the case)
+            keep = res[1].copy()
+            try:
+                res[1][...] = 77.0
+            except Exception:
+                pass
+            res = (True, keep)
         for name, x, snap, saved in before:
             r.cls('argument-array-reused')
             r.n_cmp += 1
@@ -300,6 +372,30 @@ def run_energy(case):
                         for j in range(1, total_len):
                             cref.append(cref[-1] + abs(e_ref[j] - e_ref[j - 1]))
                         r.expect_close('cum.definition', s2, rows[i], fl(cref), rtol=1e-12, atol=at_e)
+        # records held in integer types (same samples as float64 twin): full series of the batches, all three functions
+        if batch:
+            for dname, mult, off, typ in ENERGY_DTYPES:
+                r.states += 1
+                r.cls('record-dtype-' + dname.split(' ')[0])
+                vals = [int(affine(v, mult, off)) for v in w]
+                sg_t = eqsig.AccSignal(np.array(vals, dtype=typ), dtf)
+                sg_f = sig_for(vals)
+                for key, attr in FNS:
+                    sub = {'w': w, 'nodal': nodal, 'red': red, 'tt': [float(t) for t in tts], 'trim': False, 'start': False,
+                           'stt': 0.0, 'fn': key, 'record': dname}
+                    ok1, o1 = run(attr, key, sub, sg_t, args, False, False, 0.0)
+                    ok2, o2 = run(attr, key, dict(sub, record=dname + ' as float64'), sg_f, args, False, False, 0.0)
+                    if ok1 and ok2:
+                        r.transitions += 1
+                        r.expect_close(key + '.record-dtype', sub, o1, o2, rtol=1e-12, atol=0.0,
+                                       what='record held as %s vs the same samples held as float64' % dname)
+                try:
+                    same = sg_t.values.dtype == np.dtype(typ) and [int(v) for v in sg_t.values] == vals
+                except Exception:
+                    same = False
+                r.expect('record-unchanged', {'w': w, 'nodal': nodal, 'red': red, 'record': dname}, same,
+                         'the signal object was modified by the surface functions', observed=getattr(sg_t, 'values', None),
+                         expected=vals)
         for (trim, start) in OPTS:
             for stt in STTS:
                 r.states += 1
@@ -414,8 +510,12 @@ def run_energy(case):
                                  observed=c0, expected=e0)
                 # alpha^2 scaling of the cumulative absolute change
                 if 'cum' in outs:
-                    for alpha in ALPHAS:
-                        sub = dict(sub0, alpha=alpha)
+                    full = not trim and not start and stt == 0.0
+                    for aname, alpha in [(al, al) for al in ALPHAS] + (list(EXTRA_ALPHAS) if full else []):
+                        sub = dict(sub0, alpha=aname)
+                        alpha = float(alpha)
+                        if aname != alpha:
+                            r.cls('alpha-tiny-or-huge')
                         ok, out = run('calc_cum_abs_surface_energy', 'cum.scaling', sub, sig_for([alpha * v for v in w]), args,
                                       trim, start, stt)
                         if not ok:
@@ -446,54 +546,135 @@ def shift_vectors(vals):
             yield list(v)
 
 
+def affine(v, mult, off):
+    return Fraction(v) * Fraction(mult) + Fraction(off)
+
+
+def build_arr(vals_fr, typ):
+    """container of the exact rationals vals_fr (all exactly representable in the requested type)"""
+    if typ in (list, tuple):
+        return typ(int(v) for v in vals_fr)
+    if typ in (float, np.float32):
+        a = np.array([float(v) for v in vals_fr], dtype=typ)
+    else:
+        a = np.array([int(v) for v in vals_fr], dtype=typ)
+    assert all(Fraction(float(x)) == v for x, v in zip(a.tolist(), vals_fr)), 'sample not representable'
+    return a
+
+
+class Shared(object):
+    """An argument container handed, as the same object, to a sequence of calls; snapshot-checked after each."""
+
+    def __init__(self, name, obj):
+        self.name, self.obj, self.snap = name, obj, snapshot(obj)
+        self.saved = obj.copy() if isinstance(obj, np.ndarray) else obj
+
+    def verify(self, r, sub):
+        r.n_cmp += 1
+        if snapshot(self.obj) != self.snap:
+            r.fail('arguments-unchanged', dict(sub, argument=self.name), "the caller's %s was modified by the call" % self.name,
+                   observed=self.obj, expected=self.saved)
+            if isinstance(self.obj, np.ndarray):
+                self.obj[...] = self.saved
+            elif isinstance(self.obj, list):
+                self.obj[:] = list(self.saved)
+
+
+def call_shared(r, claim, sub, shared, fn, *args, **kw):
+    """r.call; the returned array is overwritten in place after a private copy was taken (a result that is a view of an
+    argument or of something the function keeps shows in the snapshots / in the next call); snapshot check of the arguments."""
+    ok, out = r.call(claim, sub, fn, *args, **kw)
+    if ok and isinstance(out, np.ndarray) and out.size:
+        keep = out.copy()
+        try:
+            out[...] = 77
+        except Exception:
+            pass
+        out = keep
+    for sh in shared:
+        sh.verify(r, sub)
+    return ok, out
+
+
 def run_shift(case):
     r = Res()
     w = [int(v) for v in case['w']]
     r.nontrivial += 1
+    _shift_body(r, w, None, 1, 0, float)
+    if len(w) <= SHIFT_VARIANT_MAX_LEN:
+        for tag, mult, off, typ in SHIFT_VARIANTS:
+            r.cls('shift-variant-' + tag.split(' ')[0])
+            _shift_body(r, w, tag, mult, off, typ)
+    return r
+
+
+def _shift_body(r, w, tag, mult, off, typ):
+    """tag None: the historical float64 (+ int64 for put) containers; otherwise one container / dtype / scaling variant."""
+    plain = tag is None
+    wx = [affine(v, mult, off) for v in w]              # the samples actually passed (exact)
+    wxf = [float(v) for v in wx]
+    conts = (('f64', float), ('i64', np.int64)) if plain else ((tag, typ),)
+    vals_sh = {cont: Shared('values', build_arr(wx, t)) for cont, t in conts}      # ONE object per container for all calls
+    as_list = typ is list                              # the python-list variant also hands the shifts over as a list
     for sh in shift_vectors(SHIFT_VALS):
-        if min(sh) < 0:
-            r.cls('shift-negative')
-        if max(sh) > 0:
-            r.cls('shift-positive')
-        if min(sh) < 0 < max(sh):
-            r.cls('shift-mixed-sign')
+        if not plain and len(sh) > 2:
+            break               # variants: shift vectors of length 1 and 2 (the placement logic is per row)
+        if plain:
+            if min(sh) < 0:
+                r.cls('shift-negative')
+            if max(sh) > 0:
+                r.cls('shift-positive')
+            if min(sh) < 0 < max(sh):
+                r.cls('shift-mixed-sign')
+        sh_arg = Shared('shifts', list(sh) if as_list else np.array(sh, dtype=int))
         for clip in CLIPS:
             r.states += 1
-            r.cls('clip-' + clip)
-            want = np.array(ref_put(w, sh, 'none' if clip == 'default' else clip), dtype=float)
-            for cont in ('f64', 'i64'):
+            if plain:
+                r.cls('clip-' + clip)
+            want = np.array(ref_put(wxf, sh, 'none' if clip == 'default' else clip), dtype=float)
+            for cont, _ in conts:
                 sub = {'w': w, 'shifts': sh, 'clip': clip, 'input': cont}
-                vals = np.array(w, dtype=float if cont == 'f64' else np.int64)
                 kw = {} if clip == 'default' else {'clip': clip}
-                ok, out = r.call('put', sub, time_shift.put_array_in_2d_array, vals, np.array(sh, dtype=int), **kw)
+                ok, out = call_shared(r, 'put', sub, (vals_sh[cont], sh_arg), time_shift.put_array_in_2d_array,
+                                      vals_sh[cont].obj, sh_arg.obj, **kw)
                 if ok:
                     r.expect_close('put', sub, out, want.reshape(len(sh), -1), rtol=1e-12)
+    jcont = conts[0][0]
+    vsh = vals_sh[jcont]
     for sh in shift_vectors((0, 1, 2)):
+        sh_arg = Shared('shifts', list(sh) if as_list else np.array(sh, dtype=int))
         for jtype in ('add', 'sub'):
             r.states += 1
-            r.cls('join-' + jtype)
-            want = np.array(ref_join(w, sh, jtype), dtype=float)
+            if plain:
+                r.cls('join-' + jtype)
+            # exact sums of the exact samples (Fractions), then rounded once
+            want = np.array([[float(x) for x in row] for row in ref_join(wx, sh, jtype)], dtype=float)
             sub = {'w': w, 'shifts': sh, 'jtype': jtype}
-            ok, out = r.call('join', sub, time_shift.join_values_w_shifts, np.array(w, dtype=float),
-                             np.array(sh, dtype=int), jtype=jtype)
+            if not plain:
+                sub['input'] = tag
+            ok, out = call_shared(r, 'join', sub, (vsh, sh_arg), time_shift.join_values_w_shifts, vsh.obj, sh_arg.obj, jtype=jtype)
             if ok:
                 r.expect_close('join', sub, out, want, rtol=1e-12)
             for jdt in JOIN_DTS:
                 s2 = dict(sub, dt=jdt)
-                r.cls('join-signal')
+                if plain:
+                    r.cls('join-signal')
+                ts_arg = Shared('time_shifts', np.array(sh, dtype=float) * jdt)
 
                 def via_sig():
-                    sig = eqsig.Signal(np.array(w, dtype=float), jdt)
-                    return time_shift.join_sig_w_time_shift(sig, np.array(sh, dtype=float) * jdt, jtype=jtype)
-                ok, out = r.call('join.signal', s2, via_sig)
+                    sig = eqsig.Signal(vsh.obj, jdt)          # the Signal keeps the dtype it is given
+                    return time_shift.join_sig_w_time_shift(sig, ts_arg.obj, jtype=jtype)
+                ok, out = call_shared(r, 'join.signal', s2, (vsh, ts_arg), via_sig)
                 if ok:
                     r.expect_close('join.signal', s2, out, want, rtol=1e-12)
         # default jtype is 'add'
         sub = {'w': w, 'shifts': sh, 'jtype': 'default'}
-        ok, out = r.call('join', sub, time_shift.join_values_w_shifts, np.array(w, dtype=float), np.array(sh, dtype=int))
+        if not plain:
+            sub['input'] = tag
+        ok, out = call_shared(r, 'join', sub, (vsh, sh_arg), time_shift.join_values_w_shifts, vsh.obj, sh_arg.obj)
         if ok:
-            r.expect_close('join', sub, out, np.array(ref_join(w, sh, 'add'), dtype=float), rtol=1e-12)
-    return r
+            r.expect_close('join', sub, out, np.array([[float(x) for x in row] for row in ref_join(wx, sh, 'add')], dtype=float),
+                           rtol=1e-12)
 
 
 def run_case(case):
